@@ -37,6 +37,7 @@ RULE += (" Values include long strings (40-75 characters) with 17-33 matches of 
 RULE += (" Items also carry the cased modifier (alone and with contains).")
 RULE += (" Hashes items also carry contains, all and neq.")
 RULE += (" Items with the windash modifier take part: the values of the expansion are transformed one by one.")
+RULE += (" add_condition items may carry a detection name of the caller's choice; the rule's own selectors reach the added detection when its name matches, as they would reach a detection written into the rule.")
 ASSUMPTIONS = [
     "the rewrite engine in vf/props/c12.py states the documented meaning of each transformation",
     "negated items under one-to-many mappings, case-sensitive strings under value transformations and "
@@ -293,6 +294,12 @@ def apply_transformation(t, structs, state):
             def sub(x):
                 return string.Template(x).safe_substitute(category=ls.get("category"), product=ls.get("product"), service=ls.get("service")) if isinstance(x, str) else x
             conds = {k: ([sub(i) for i in v] if isinstance(v, list) else sub(v)) for k, v in conds.items()}
+        if t.get("name"):
+            # the added detection has a name of the caller's choice: like a detection written into the rule it is also
+            # reached by the rule's own selectors ('1 of sel*') when its name matches
+            structs[t["name"]] = _struct(conds)
+            state.setdefault("named", []).append((t["name"], bool(t.get("negated"))))
+            return
         state["added"].append((_struct(conds), bool(t.get("negated"))))
         return
     if ty in ("field_name_mapping", "field_name_prefix_mapping", "field_name_suffix", "field_name_prefix"):
@@ -383,6 +390,8 @@ def expected(doc, chain, vars_=None):
     out = []
     for c in conds:
         f, _ = rc.parse_condition(c, names, leaf)
+        for nm, neg in state.get("named", []):   # applied in order: each one is ANDed in front of what is there
+            f = AND([NOT(leaf(nm)) if neg else leaf(nm), f])
         f = prune(f)
         for st_, neg in state["added"]:
             af = struct_formula(st_)
@@ -639,6 +648,8 @@ def transformations(draw, allow_nest=True):
         t["negated"] = draw(st.booleans())
         if "$" in str(t["conditions"]):
             t["template"] = True
+        if draw(st.integers(0, 3)) == 0:  # a name of the caller's choice that the rule's selector patterns may match
+            t["name"] = draw(st.sampled_from(["sel_added", "selection9", "filter_added", "other_x", "zz_added"]))
     elif ty == "replace_string":
         rx, rp = draw(st.sampled_from([("a", "b"), ("^x", "y"), ("(a)(b)", "\\2\\1"), ("\\\\", "/"), ("A", "*"), ("c$", "")]))
         t["regex"], t["replacement"] = rx, rp
